@@ -204,10 +204,20 @@ def c19_check():
             cmd = (f"{BIN}/hist.exc --prop C19 --seed {mix(seed, 400 + i)} --cases {n * 3} --maxsize 60 --dump {n} --dump-dir {dump} --out {d}/stats.json --faildir {d} && "
                    f"valgrind -q --error-exitcode=9 --leak-check=full --errors-for-leak-kinds=definite,indirect --track-origins=yes --num-callers=20 {BIN}/hist.exc --replay-many {dump} 2> {d}/valgrind.txt")
             jobs.append(dict(argv=["sh", "-c", cmd], out=os.path.join(d, "stats.json"), faildir=d, own_artifacts=True, vgdir=dump))
+        for i in range(2):   # process shutdown: saved histories re-run with an atexit hook registered before the first MASA call (ASan build)
+            d = os.path.join(work, f"ax{i}"); dump = os.path.join(d, "histories")
+            os.makedirs(dump, exist_ok=True)
+            n = 12 if quick else 300
+            cmd = (f"{BIN}/hist.exc --prop C19 --seed {mix(seed, 500 + i)} --cases {n * 3} --maxsize 40 --dump {n} --dump-dir {dump} --out {d}/stats.json --faildir {d} || exit 3; "
+                   f"for f in {dump}/case_*.case; do {BIN}/hist.asanexc --at-exit $f 2> {d}/atexit_stderr.txt || {{ cp $f {d}/fail_atexit.case; exit 7; }}; done")
+            jobs.append(dict(argv=["sh", "-c", cmd], out=os.path.join(d, "stats.json"), faildir=d, own_artifacts=True, axdir=d, env={"ASAN_OPTIONS": "detect_leaks=1"}))
         return jobs
     def collect(jobs, results):
         out = []
         for j, rc in results:
+            if "axdir" in j and rc not in (0, "timeout"):
+                f = os.path.join(j["axdir"], "fail_atexit.case")
+                out.append((f"API calls from an atexit handler registered before the first MASA call: sanitizer report or abnormal end (exit {rc}), see {j['axdir']}/atexit_stderr.txt", f if os.path.exists(f) else None))
             if "art" in j:
                 for fn in sorted(os.listdir(j["art"])):
                     if fn.startswith("crash-") or fn.startswith("leak-"):
@@ -223,6 +233,8 @@ def c19_check():
             return [["valgrind", "-q", "--error-exitcode=9", "--leak-check=full", "--errors-for-leak-kinds=definite,indirect", "--track-origins=yes", os.path.join(BIN, "hist.exc"), "--replay-many", path]]
         if b.startswith(("crash-", "leak-", "oom-")) or "@crash-" in b or "@leak-" in b:
             return [[os.path.join(BIN, "fuzz_hist.asanexc"), "-detect_leaks=1", path]]
+        if b.startswith("fail_atexit") or "@fail_atexit" in b:
+            return [[os.path.join(BIN, "hist.asanexc"), "--at-exit", path]]
         if b.startswith("fail_leak") or "@fail_leak" in b:
             return [[os.path.join(BIN, "leak.exc"), "--replay", path]]
         return [[os.path.join(BIN, "hist.asanexc"), "--replay", path]]
